@@ -16,6 +16,8 @@ RELEASE = ("libc::free", "libc::munmap", "libc::realloc", "std::alloc::dealloc",
 WIPERS = ("zeroize::Zeroize::zeroize", "std::ptr::write_bytes", "core::ptr::write_bytes",
           "std::intrinsics::volatile_set_memory", "std::ptr::mut_ptr::<impl *mut T>::write_bytes")
 
+MULTI_CONFIG = True
+
 EXPLANATION = (
     "REACH + MUSTCALL + IMPL on the MIR and impl table. (1) who-may-release: every call to "
     "free/munmap/realloc/dealloc/from_raw in the crate is enumerated; the only one allowed is the "
